@@ -294,6 +294,27 @@ def oracle(b, p, line, nions, rtol=1e-9):
     for k in range(3):
         if abs(fin[k] - (p1[k] + S * d[k])) > 1e-7 * scale:
             return "position: coordinate %d ends at %r, start + S*d = %r" % (k, fin[k], p1[k] + S * d[k])
+    # every credited cell is crossed by the straight line for (about) the credited length: slab intersection of p1 + t d, 0 <= t <= S
+    # with the cell's box (tolerance in t: a wall position is known to 1e-7 scale, divided by the smallest non-zero direction component)
+    dmin = min([abs(x) for x in d if x != 0.0] or [1.0])
+    tol_t = 2e-7 * scale / dmin + rtol * S
+    for c, L in lens.items():
+        idx = (c // (n[1] * n[2]), (c // n[2]) % n[1], c % n[2])
+        t0, t1 = 0.0, S
+        for k in range(3):
+            lo_, hi_ = idx[k] * cs[k], (idx[k] + 1) * cs[k]
+            if d[k] == 0.0:
+                if not (lo_ - 1e-7 * scale <= p1[k] <= hi_ + 1e-7 * scale):
+                    t1 = t0 - 1.0
+            else:
+                ta, tb = (lo_ - p1[k]) / d[k], (hi_ - p1[k]) / d[k]
+                if ta > tb:
+                    ta, tb = tb, ta
+                t0, t1 = max(t0, ta), min(t1, tb)
+        geo = max(0.0, t1 - t0)
+        if abs(L - geo) > tol_t:
+            return ("cell_membership: cell %d = %r is credited the length %r but the straight line from the (repositioned) start spends %r inside it "
+                    "(start %r, direction %r)" % (c, idx, L, geo, p1, d))
     # optical depth
     sH = p["sigma"][0]
     sHe = p["sigma"][1] if nions > 1 else 0.0
